@@ -59,11 +59,35 @@ def make_classes(shape):
         cls = getattr(gen_classes, cname, None)
         if cls is None:
             base = out[spec['base']] if spec['base'] else SBase
-            cls = type(cname, (base,), {'__module__': gen_classes.__name__})
-            if spec['persist'] is not None:
+            body = {'__module__': gen_classes.__name__}
+            if spec.get('hook'):
+                # members declared in the persist() hook (run lazily before the first save/load) instead of by the decorator
+                def persist(klass, _members=tuple(spec['persist'])):
+                    super(klass._pv_hook_owner, klass).persist()
+                    klass.auto_persist(*_members)
+
+                body['persist'] = classmethod(persist)
+            cls = type(cname, (base,), body)
+            if spec.get('hook'):
+                cls._pv_hook_owner = cls
+            elif spec['persist'] is not None:
                 cls = persistence.auto_persist(*spec['persist'])(cls)
             setattr(gen_classes, cname, cls)
         out[spec['name']] = cls
+    return out
+
+
+def _hook_lineage(shape):
+    """Names of the classes that declare members in a persist() hook, or inherit from one that does."""
+    byname = {s['name']: s for s in shape}
+    out = set()
+    for spec in shape:
+        cur = spec
+        while cur is not None:
+            if cur.get('hook'):
+                out.add(spec['name'])
+                break
+            cur = byname[cur['base']] if cur['base'] else None
     return out
 
 
@@ -131,6 +155,21 @@ def enumerate_cases(tier, scope):
                     if cls == 'C2':
                         members['m2'] = ['savable', {'cls': 'D', 'members': {'m0': ['method', 'meth_a'], 'm3': ['future', fut]}}]
                     yield {'shape': shape, 'instance': {'cls': cls, 'members': members, 'extra': {'zz': 1}}, 'loader': loader, 'load_with': load_with}
+    # another object of the family saved and loaded first (different loader configuration, caller-owned context reused);
+    # members declared by the persist() hook of a class below a non-declaring base
+    hooked = _shape_chain(3, [None, ['m0', 'm1'], ['m2']])
+    hooked[1]['hook'] = True
+    for shp, pre_classes, main_classes in ((shape, ('C0', 'D'), ('C2', 'C1')), (hooked, ('C0',), ('C1', 'C2'))):
+        for loader in ('default', 'global', 'persave', 'persave+global'):
+            for pre_loader in ('default', 'other'):
+                for share in (False, True):
+                    for pre_cls in pre_classes:
+                        for cls in main_classes:
+                            members = {m: ['val', [1, {'k': [2]}]] for m in sorted(declared(shp, cls))}
+                            if 'm1' in members:
+                                members['m1'] = ['method', 'meth_b']
+                            yield {'shape': shp, 'instance': {'cls': cls, 'members': members, 'extra': {'zz': 1}}, 'loader': loader, 'load_with': 'none',
+                                   'prelude': {'cls': pre_cls, 'loader': pre_loader, 'share_ctx': share}}
     yield {'shape': shape, 'instance': {'cls': 'C2', 'members': {'m0': ['val', 1], 'm1': ['val', 2], 'm2': ['val', 3]}}, 'loader': 'default', 'load_with': 'none', 'tamper': 'pv.gen_classes:DoesNotExist'}
     yield {'shape': shape, 'instance': {'cls': 'C2', 'members': {'m0': ['val', 1], 'm1': ['val', 2], 'm2': ['val', 3]}}, 'loader': 'default', 'load_with': 'none', 'tamper': 'no-colon-here'}
     yield {'shape': shape, 'instance': {'cls': 'C2', 'members': {'m0': ['val', 1], 'm1': ['val', 2], 'm2': ['val', 3]}}, 'loader': 'persave', 'load_with': 'none', 'tamper': 'tag!pv.gen_classes:DoesNotExist'}
@@ -175,6 +214,20 @@ def _cases(draw, tier):
     if draw(st.booleans()):
         sibling = (f'C{draw(st.integers(0, n - 1))}', draw(st.lists(st.sampled_from(MEMBERS), max_size=3, unique=True)))
     shape = _shape_chain(n, persists, sibling)
+    if draw(st.integers(0, 3)) == 0:
+        # one class declares its members in the persist() hook; its ancestors declare nothing (the hook updates the
+        # set it finds, so a hook below a declaring class is a different, undocumented, story)
+        candidates = []
+        byname = {s['name']: s for s in shape}
+        for spec in shape:
+            cur, clean = (byname[spec['base']] if spec['base'] else None), spec['persist'] is not None
+            while cur is not None and clean:
+                clean = cur['persist'] is None
+                cur = byname[cur['base']] if cur['base'] else None
+            if clean:
+                candidates.append(spec['name'])
+        if candidates:
+            byname[draw(st.sampled_from(candidates))]['hook'] = True
     case = {
         'shape': shape,
         'instance': draw(_instance(shape, 3)),
@@ -183,6 +236,8 @@ def _cases(draw, tier):
     }
     if draw(st.integers(0, 9)) == 0:
         case['tamper'] = draw(st.sampled_from(['pv.gen_classes:DoesNotExist', 'no-colon-here', 'nomodule.xyz:Thing']))
+    if draw(st.integers(0, 2)) == 0:
+        case['prelude'] = {'cls': draw(st.sampled_from([s['name'] for s in shape])), 'loader': draw(st.sampled_from(['default', 'other'])), 'share_ctx': draw(st.booleans())}
     return case
 
 
@@ -282,7 +337,10 @@ def execute(case):
     shape = case['shape']
     classes = make_classes(shape)
     # sibling / parent declaration sets never leak
+    hooked = _hook_lineage(shape)
     for spec in shape:
+        if spec['name'] in hooked:
+            continue  # declared lazily by the persist() hook: judged through what is saved
         cls = classes[spec['name']]
         got = set(cls._auto_persist or ())
         if got != declared(shape, spec['name']):
@@ -298,6 +356,24 @@ def execute(case):
             futs = []
             obj = build(classes, shape, case['instance'], loop, futs)
             save_ctx = None
+            shared_ctx = None
+            prelude = case.get('prelude')
+            if prelude:
+                # another object of the family is saved and loaded first, through a context the caller keeps using
+                pre_inst = {'cls': prelude['cls'], 'members': {m: ['val', 1] for m in sorted(declared(shape, prelude['cls']))}}
+                pre_obj = build(classes, shape, pre_inst, loop, futs)
+                pre_ctx = persistence.LoadSaveContext(loader=loaders_h.OtherLoader()) if prelude['loader'] == 'other' else None
+                shared_ctx = persistence.LoadSaveContext(loop=loop)
+                try:
+                    pre_state = pre_obj.save(pre_ctx)
+                    pre_new = persistence.Savable.load(pre_state, shared_ctx)
+                    if type(pre_new) is not classes[prelude['cls']]:
+                        v('prelude-wrong-class', f'{type(pre_new).__name__} expected {classes[prelude["cls"]].__name__}')
+                    compare(pre_inst, shape, classes, pre_new, 'prelude', v)
+                except BaseException as exc:  # noqa: BLE001
+                    v('prelude-raised', f'{type(exc).__name__}: {str(exc)[:200]}')
+                if not prelude.get('share_ctx'):
+                    shared_ctx = None
             if case['loader'] == 'global':
                 loaders.set_object_loader(custom)
             elif case['loader'] == 'persave':
@@ -323,7 +399,7 @@ def execute(case):
                     v('not-copied-at-save', f'mutating the original after save() changed the saved state: {diff}')
                 if case.get('tamper'):
                     state['!!meta']['class_name'] = case['tamper']
-                load_ctx = persistence.LoadSaveContext(loop=loop)
+                load_ctx = shared_ctx if shared_ctx is not None else persistence.LoadSaveContext(loop=loop)
                 if case['load_with'] == 'ctx' and case['loader'] != 'default':
                     load_ctx = persistence.LoadSaveContext(loop=loop, loader=custom)
                 before_loads = loaders_h.TagLoader.owned_loads
@@ -366,6 +442,10 @@ def execute(case):
     classes_out = ['loader:' + case['loader'] + '/' + case['load_with']] + ['kind:' + k for k in sorted(flat)]
     if case.get('tamper'):
         classes_out.append('tampered')
+    if case.get('prelude'):
+        classes_out.append('prelude:' + case['prelude']['loader'] + ('/shared-ctx' if case['prelude'].get('share_ctx') else ''))
+    if inst['cls'] in _hook_lineage(shape):
+        classes_out.append('persist-hook')
     for f in _flat_futures(inst):
         classes_out.append('future:' + (f if isinstance(f, str) else f[0]))
     return {'violations': viol, 'nontrivial': nontrivial, 'classes': sorted(set(classes_out)), 'history': {'cls': inst['cls'], 'members': {k: s[0] for k, s in inst['members'].items()}, 'loader': case['loader']}}
